@@ -88,6 +88,10 @@ def gen_isa(rnd, *, want_macros=None, small=False, allow_numeric_enum=False):
     opsets['rels'] = {'operand_values': {'rel': {'type': 'relative_address', 'use_curly_braces': True,
                                                   'bytecode': {'value': 6, 'size': 4},
                                                   'argument': {'size': 8, 'byte_align': True, 'max': 127, 'min': -128}}}}
+    if len(enum_keys) % 2:
+        # both limits are optional: without them only the field width bounds the displacement
+        del opsets['rels']['operand_values']['rel']['argument']['max']
+        del opsets['rels']['operand_values']['rel']['argument']['min']
     opsets['defr'] = {'operand_values': {'defr': {'type': 'deferred_numeric', 'bytecode': {'value': 4, 'size': 3},
                                                    'argument': {'size': 16, 'byte_align': True}}}}
     if registers:
